@@ -47,8 +47,9 @@ def gen_inputs(rng, spec, n=None, capacity_ok=None):
             d["share"] = [float(rng.integers(1, 20)) / 20.0 if rng.random() < 0.25 else 0.0 for _ in range(n)]
             if rng.random() < 0.15:
                 d["share"] = [1.0 if x else 0.0 for x in d["share"]]         # fixed share of the whole rating
-            elif rng.random() < 0.1:
-                d["share"] = [1e-9 if x else 0.0 for x in d["share"]]        # a fixed share of (almost) nothing is still a fixed share
+            elif rng.random() < 0.2:
+                # a fixed share of (almost) nothing is still a fixed share - on some steps next to ordinary ones
+                d["share"] = [(1e-9 if rng.random() < 0.6 else x) if x else 0.0 for x in d["share"]]
         elif k in ("other_load", "drive"):
             scale = min(c["rated"], 0.5 * total_src / n_cons)
             d["load"] = [float(np.round(rng.uniform(0.02, 0.95) * scale, 2)) if rng.random() < 0.9 else 0.0 for _ in range(n)]
